@@ -50,7 +50,18 @@ func (cj *CookieJar) Get(uri *fasthttp.URI) []*fasthttp.Cookie {
 		return nil
 	}
 
-	return cj.getByHostAndPath(uri.Host(), uri.Path())
+	stored := cj.getByHostAndPath(uri.Host(), uri.Path())
+	if len(stored) == 0 {
+		return stored
+	}
+
+	// Hand out copies: the caller may modify or release what it gets.
+	cookies := make([]*fasthttp.Cookie, len(stored))
+	for i, c := range stored {
+		cookies[i] = fasthttp.AcquireCookie()
+		cookies[i].CopyTo(c)
+	}
+	return cookies
 }
 
 // getByHostAndPath returns cookies stored for a specific host and path.
